@@ -186,6 +186,26 @@ func (t *Term) Equal(u *Term) bool {
 	return StripFullSlice(t).String() == StripFullSlice(u).String()
 }
 
+// SelectRecFields reduces field selections on record terms: rec(fld(f;v),…).f = v (a helper that returns a struct
+// literal, inlined into a caller that selects one field of the result).
+func SelectRecFields(t *Term) *Term {
+	if t == nil || len(t.Args) == 0 {
+		return t
+	}
+	n := &Term{Op: t.Op, Val: t.Val, Type: t.Type, Src: t.Src}
+	for _, a := range t.Args {
+		n.Args = append(n.Args, SelectRecFields(a))
+	}
+	if n.Op == "field" && len(n.Args) == 1 && n.Args[0].Op == "rec" {
+		for _, f := range n.Args[0].Args {
+			if f.Op == "fld" && f.Val == n.Val && len(f.Args) == 1 {
+				return f.Args[0]
+			}
+		}
+	}
+	return n
+}
+
 // StripFullSlice rewrites x[:] to x everywhere in t. A full slice expression denotes the same elements as its operand;
 // where operand and result types differ (array vs slice) only one of the two forms type-checks in a given context, so
 // treating them as equal cannot equate two programs that both compile and behave differently.
@@ -209,6 +229,18 @@ func StripFullSlice(t *Term) *Term {
 // Field builds t.f1.f2…
 func (t *Term) Field(path ...string) *Term {
 	for _, f := range path {
+		if t.Op == "rec" {
+			sel := (*Term)(nil)
+			for _, fl := range t.Args {
+				if fl.Op == "fld" && fl.Val == f && len(fl.Args) == 1 {
+					sel = fl.Args[0]
+				}
+			}
+			if sel != nil {
+				t = sel
+				continue
+			}
+		}
 		t = mk("field", f, t)
 	}
 	return t
@@ -267,7 +299,7 @@ func (t *Term) Specialise(cond *Term, val bool) *Term {
 			c = c.Args[0]
 			neg = !neg
 		}
-		if c.Equal(cond) {
+		if c.Equal(cond) || (c.Op == "bin" && (c.Val == "==" || c.Val == "!=") && cond.Op == "bin" && cond.Val == c.Val && len(c.Args) == 2 && len(cond.Args) == 2 && c.Args[0].Equal(cond.Args[1]) && c.Args[1].Equal(cond.Args[0])) {
 			if val != neg {
 				return t.Args[1].Specialise(cond, val)
 			}
@@ -885,8 +917,16 @@ func (e *Eval) inlinePure(c *ssa.Call, args []*Term) *Term {
 	if callee == nil || !InModule(callee) || callee == e.Fn || inlineBusy[callee] {
 		return nil
 	}
-	if len(callee.Blocks) != 1 || callee.Signature.Results().Len() != 1 || len(callee.Params) != len(args) {
+	if callee.Signature.Results().Len() != 1 || len(callee.Params) != len(args) || len(callee.Blocks) == 0 {
 		return nil
+	}
+	if len(callee.Blocks) > 1 {
+		// methods such as isUplink() are vocabulary of the rules (they appear by name in expected terms);
+		// only plain helper functions are unfolded
+		if callee.Signature.Recv() != nil {
+			return nil
+		}
+		return e.inlineBranching(callee, args)
 	}
 	blk := callee.Blocks[0]
 	ret, ok := blk.Instrs[len(blk.Instrs)-1].(*ssa.Return)
@@ -896,15 +936,23 @@ func (e *Eval) inlinePure(c *ssa.Call, args []*Term) *Term {
 	for _, ins := range blk.Instrs {
 		switch x := ins.(type) {
 		case *ssa.Store:
-			// spilling a parameter into its own local is fine; any other store is an effect
-			if _, isAlloc := x.Addr.(*ssa.Alloc); !isAlloc {
+			// building a value in a local (spilled parameter, struct literal) is fine; any other store is an effect
+			if b, _ := baseOf(x.Addr); b == nil {
 				return nil
-			}
-			if _, isParam := x.Val.(*ssa.Parameter); !isParam {
+			} else if _, isAlloc := b.(*ssa.Alloc); !isAlloc {
 				return nil
 			}
 		case ssa.CallInstruction:
-			return nil
+			if _, isB := x.Common().Value.(*ssa.Builtin); isB {
+				continue
+			}
+			// nested expression helpers are inlined when their own term is built; other calls must be pure externals
+			if sc := x.Common().StaticCallee(); sc != nil && InModule(sc) {
+				continue
+			}
+			if !pureExternal[CalleeName(x.Common())] {
+				return nil
+			}
 		case *ssa.MapUpdate, *ssa.Send, *ssa.Go, *ssa.Defer, *ssa.Panic:
 			return nil
 		}
@@ -913,7 +961,17 @@ func (e *Eval) inlinePure(c *ssa.Call, args []*Term) *Term {
 	defer delete(inlineBusy, callee)
 	ce := For(callee)
 	rt := ce.Select(ret.Results[0], nil, ret)
-	if !rt.Pure() || rt.IsUnknown() {
+	if rt.IsUnknown() || rt.Has(func(t *Term) bool {
+		switch t.Op {
+		case "opaque", "phi", "loop", "alloc", "closure", "dyn", "after", "copyof", "makeslice", "makemap":
+			return true
+		case "call":
+			return !pureExternal[t.Val] // a nested in-module call that could not be inlined
+		case "extract":
+			return !(len(t.Args) == 1 && (t.Args[0].Op == "assert" || (t.Args[0].Op == "call" && pureExternal[t.Args[0].Val])))
+		}
+		return false
+	}) {
 		return nil
 	}
 	// substitute parameters (simultaneously: go through placeholders)
@@ -928,7 +986,99 @@ func (e *Eval) inlinePure(c *ssa.Call, args []*Term) *Term {
 		}
 		out = out.Subst(mk("param", fmt.Sprintf("__%d", i)), arg)
 	}
-	return out
+	return SelectRecFields(out)
+}
+
+// inlineBranching: a loop-free, effect-free helper with one result and several returns
+// (`if pred(x) { return A }; return B`) becomes ite(pred, A, B) with the arguments substituted.
+func (e *Eval) inlineBranching(callee *ssa.Function, args []*Term) *Term {
+	if len(callee.Blocks) > 12 {
+		return nil
+	}
+	for _, b := range callee.Blocks {
+		for _, sc := range b.Succs {
+			if sc.Dominates(b) {
+				return nil // loop
+			}
+		}
+		for _, ins := range b.Instrs {
+			switch x := ins.(type) {
+			case *ssa.Store:
+				if bs, _ := baseOf(x.Addr); bs == nil {
+					return nil
+				} else if _, isAlloc := bs.(*ssa.Alloc); !isAlloc {
+					return nil
+				}
+			case ssa.CallInstruction:
+				if _, isB := x.Common().Value.(*ssa.Builtin); isB {
+					continue
+				}
+				if sc := x.Common().StaticCallee(); sc != nil && InModule(sc) {
+					continue
+				}
+				if !pureExternal[CalleeName(x.Common())] {
+					return nil
+				}
+			case *ssa.MapUpdate, *ssa.Send, *ssa.Go, *ssa.Defer, *ssa.Panic, *ssa.Phi:
+				return nil
+			}
+		}
+	}
+	inlineBusy[callee] = true
+	defer delete(inlineBusy, callee)
+	ce := For(callee)
+	var walk func(b *ssa.BasicBlock, depth int) *Term
+	walk = func(b *ssa.BasicBlock, depth int) *Term {
+		if depth > 12 {
+			return nil
+		}
+		switch last := b.Instrs[len(b.Instrs)-1].(type) {
+		case *ssa.Return:
+			if len(last.Results) != 1 {
+				return nil
+			}
+			return ce.Select(last.Results[0], nil, last)
+		case *ssa.Jump:
+			return walk(b.Succs[0], depth+1)
+		case *ssa.If:
+			c := ce.Select(last.Cond, nil, last)
+			t, f := walk(b.Succs[0], depth+1), walk(b.Succs[1], depth+1)
+			if t == nil || f == nil {
+				return nil
+			}
+			if t.Equal(f) {
+				return t
+			}
+			return mk("ite", "", c, t, f)
+		}
+		return nil
+	}
+	rt := walk(callee.Blocks[0], 0)
+	if rt == nil || rt.IsUnknown() || rt.Has(func(t *Term) bool {
+		switch t.Op {
+		case "opaque", "phi", "loop", "alloc", "closure", "dyn", "after", "copyof", "makeslice", "makemap":
+			return true
+		case "call":
+			return !pureExternal[t.Val]
+		case "extract":
+			return !(len(t.Args) == 1 && (t.Args[0].Op == "assert" || (t.Args[0].Op == "call" && pureExternal[t.Args[0].Val])))
+		}
+		return false
+	}) {
+		return nil
+	}
+	out := rt
+	for i := range args {
+		out = out.Subst(Param(i), mk("param", fmt.Sprintf("__%d", i)))
+	}
+	for i, a := range args {
+		arg := a
+		if arg.Op == "addr" && len(arg.Args) == 1 {
+			arg = arg.Args[0]
+		}
+		out = out.Subst(mk("param", fmt.Sprintf("__%d", i)), arg)
+	}
+	return SelectRecFields(out)
 }
 
 // pureExternal lists external functions whose results depend on their arguments only (no state, no effect):
@@ -939,6 +1089,7 @@ var pureExternal = map[string]bool{
 	"math.Round": true, "math.RoundToEven": true, "math.Floor": true, "math.Ceil": true, "math.Trunc": true,
 	"strings.TrimPrefix": true, "strings.TrimSuffix": true, "strings.ToLower": true, "strings.ToUpper": true,
 	"encoding/hex.DecodeString": true, "encoding/hex.EncodeToString": true, "encoding/json.Marshal": true,
+	"pkgerrors.Cause": true, "errors.Is": true, "errors.Unwrap": true,
 }
 
 // inlineTuple: result idx of a call of an in-module helper with several results. The helper must have no effect
@@ -1022,7 +1173,7 @@ func (e *Eval) inlineTuple(c *ssa.Call, idx int) *Term {
 		}
 		out = out.Subst(mk("param", fmt.Sprintf("__%d", i)), arg)
 	}
-	return out
+	return SelectRecFields(out)
 }
 
 // argTerm renders an argument; a pointer to a tracked object is rendered as &object-content so that
